@@ -48,7 +48,7 @@ PROPERTIES = {
     },
     "C02": {
         "level": "other",
-        "rules": ["F1", "F2", "F5", "F29", "B5", "G3", "G5", "G6", "G7", "F13", "F16", "E2", "E3", "E5", "E6", "E7", "E9", "E10"] + a_rules(PIPE + ALG),
+        "rules": ["F1", "F2", "F33", "F5", "F29", "B5", "G3", "G5", "G6", "G7", "F13", "F16", "E2", "E3", "E5", "E6", "E7", "E9", "E10"] + a_rules(PIPE + ALG),
         "explanation": "Decided: the capture pipeline is Compact(Replace(Capture)) and returns that hook's ops (F1); Compact "
                        "replays every buffered op once, in order, then finishes, Replace flushes in order (B5); every op "
                        "constructed or forwarded in compact/replace/capture/common/types takes old-side fields from old-"
@@ -69,7 +69,7 @@ PROPERTIES = {
     },
     "C04": {
         "level": "other",
-        "rules": ["F4", "F2", "F23"] + TOKENIZER + SCRIPT_VALID + [("A6", infile("text/abstraction.rs"))] +
+        "rules": ["G11", "F4", "F2", "F33", "F23"] + TOKENIZER + SCRIPT_VALID + [("A6", infile("text/abstraction.rs"))] +
                  a_rules(("iter.rs", "text/mod.rs") + ALG + PIPE),
         "explanation": "Decided: every Change constructor carries exactly the indices its tag allows and takes its value from "
                        "the proper side, per DiffTag arm (F4); both texts are tokenized by the same tokenizer in the right "
@@ -80,7 +80,7 @@ PROPERTIES = {
     },
     "C05": {
         "level": "other",
-        "rules": ["D1", "F8", "F10", "G2", "E8", "G8", "F25", "F27", "F28", "F7"] + SCRIPT_VALID + a_rules(("udiff.rs", "types.rs", "text/mod.rs", "common.rs")),
+        "rules": ["G11", "D1", "F8", "F10", "G2", "E8", "G8", "F25", "F27", "F28", "F7"] + SCRIPT_VALID + a_rules(("udiff.rs", "types.rs", "text/mod.rs", "common.rs")),
         "explanation": "Decided: no lossy decoding is reachable from the byte writers and each line is written with "
                        "write_all(as_bytes(value)) (D1: call graph incl. fmt::Display edges); Display and to_writer emit the "
                        "same (guard, template) sequence incl. header-once and missing-newline logic (F8); hunk header extents "
@@ -121,7 +121,7 @@ PROPERTIES = {
     },
     "C09": {
         "level": "other",
-        "rules": ["E1", "B4", "B5", "F1", "G3", "G9", "G5", "G6", "G7", "F13", "F16", "F31"],
+        "rules": ["E1", "B4", "B5", "F1", "G3", "G9", "G10", "G5", "G6", "G7", "F13", "F16", "F31"],
         "explanation": "Decided: no algorithm emits an empty op (E1); Replace merges runs and emits delete/replace before "
                        "insert, flushing in order (B5); both adapters are in the capture pipeline, Compact outside Replace (F1)."
                        "  Alternation after compaction and 'insertion sits at its latest position' are NOT examined.  Round 3: only an op tested to be Equal absorbs equal items (G7); merged same-kind ops grow by the right side (F13); the insert/delete slide-down arms are twins (F16); no stale op snapshot across list mutation (G5).",
@@ -129,7 +129,7 @@ PROPERTIES = {
     },
     "C10": {
         "level": "other",
-        "rules": ["F5", "B4", "B5", "G3", "G9", "G5", "G6", "G7", "F13", "F16", "F31"] +
+        "rules": ["F5", "B4", "B5", "G3", "G9", "G10", "G5", "G6", "G7", "F13", "F16", "F31"] +
                  a_rules(("algorithms/compact.rs", "algorithms/replace.rs", "types.rs")),
         "explanation": "Decided (structural parts only): no slot or side mix-up in any compaction arm or in Replace (A1-A5, A7), "
                        "helpers move start and length consistently (F5), Replace/Compact typestate (B5), Compact buffers exactly "
@@ -162,7 +162,7 @@ PROPERTIES = {
     },
     "C13": {
         "level": "other",
-        "rules": ["F4", "F3", "F22", "F23", "B4"] + a_rules(("iter.rs", "types.rs")),
+        "rules": ["G11", "F4", "F3", "F22", "F23", "B4"] + a_rules(("iter.rs", "types.rs")),
         "explanation": "Decided: per-variant tables of ChangesIter::next, as_tag_tuple, apply_to_hook and both iter_slices "
                        "(F3/F4: tags, Some/None indices, value side, Replace = deletes then inserts, twins identical); old "
                        "cursor indexes old, new cursor indexes new, apply_to_hook passes fields in slot order (A1/A2/A4).  "
@@ -171,7 +171,7 @@ PROPERTIES = {
     },
     "C14": {
         "level": "other",
-        "rules": ["F2", "F6", "F14"] + a_rules(("text/mod.rs", "algorithms/utils.rs")),
+        "rules": ["F2", "F33", "F6", "F14"] + a_rules(("text/mod.rs", "algorithms/utils.rs")),
         "explanation": "Decided: tokenizer wiring, stored algorithm and newline flag, both size branches use self.algorithm "
                        "(F2); the integer-mapping branch pairs old_lookup with old_range and new_lookup with new_range, offsets "
                        "come from the respective range starts (A3/A4); the two IdentifyDistinct loops are identical up to "
@@ -181,7 +181,7 @@ PROPERTIES = {
     },
     "C15": {
         "level": "other",
-        "rules": ["F15", "B6", "B7", "F17", "F2", "E10", "F30"] + a_rules(("algorithms/patience.rs", "algorithms/utils.rs", "algorithms/myers.rs")) +
+        "rules": ["F15", "B6", "B7", "F17", "F2", "F33", "E10", "F30"] + a_rules(("algorithms/patience.rs", "algorithms/utils.rs", "algorithms/myers.rs")) +
                  a_rules(("algorithms/compact.rs",), ["A4", "A9"]),
         "explanation": "Decided (one clause): anchors are translated from unique-list coordinates to original coordinates "
                        "only through original_index(), per side and per frame (A1-A5, A7 with frames U vs F0 in patience.rs "
@@ -190,7 +190,7 @@ PROPERTIES = {
     },
     "C16": {
         "level": "other",
-        "rules": ["F9", "F26", "F32", ("F4", infile("text/inline.rs")), ("C1", infile("text/inline.rs", "text/mod.rs"))] +
+        "rules": ["F9", "F26", "F32", "F34", ("F4", infile("text/inline.rs")), ("C1", infile("text/inline.rs", "text/mod.rs"))] +
                  a_rules(("text/inline.rs",), A_ALL + ["A6"]) + TOKENIZER + [("A6", infile("text/abstraction.rs"))],
         "explanation": "Decided: tags/indices of assembled InlineChanges (F4, A4), side consistency of lookup/push_values use "
                        "(A3), byte-unit discipline of MultiLookup (A6), deadline plumbing of the inline diff (C1), emphasis only "
@@ -200,7 +200,7 @@ PROPERTIES = {
     },
     "C17": {
         "level": "other",
-        "rules": ["F3", "F2"] + TOKENIZER + SCRIPT_VALID + a_rules(("utils.rs", "text/mod.rs")) + [("A6", infile("src/utils.rs"))],
+        "rules": ["F3", "F2", "F33"] + TOKENIZER + SCRIPT_VALID + a_rules(("utils.rs", "text/mod.rs")) + [("A6", infile("src/utils.rs"))],
         "explanation": "Decided: source.slice receives byte offsets accumulated from token byte lengths (A6); the old remapper "
                        "is built from old text + old tokens, new from new (A3/A4); iter_slices twin agreement (F3); helper "
                        "wiring (F2).  Reconstruction and 'never panics' are NOT examined.  The script-validity rules (E1-E3, G3, G5-G7, B5, F1, F5, F13) are included because remapping reads the captured ops.",
@@ -208,7 +208,7 @@ PROPERTIES = {
     },
     "C20": {
         "level": "other",
-        "rules": ["D2", "D3", "D4", "F6", "F14", "C5", "F2"] + TOKENIZER + a_rules(("text/mod.rs",), ["A3", "A4"]),
+        "rules": ["D2", "D3", "D4", "F6", "F14", "C5", "F2", "F33"] + TOKENIZER + a_rules(("text/mod.rs",), ["A3", "A4"]),
         "explanation": "Decided: the only order-sensitive hash iteration is sorted before use (D2); no clock/thread/env/"
                        "random/address dependence outside the deadline probe (D3, C5); items are only compared with ==/!= and "
                        "hashed, never ordered or formatted (D4: relabelling invariance); str and [u8] tokenizers classify "
